@@ -201,6 +201,15 @@ class _History:
     def new_mps(self):
         rng = self.rng
         q0, q1 = self.sector
+        if rng.random() < 0.12:
+            # stand-alone object: all physical labels zero, bonds with several different labels (only equal labels are connected)
+            qz = [0] * len(self.qd)
+            qDz = [[0]] + [[int(t) for t in rng.integers(-1, 2, int(rng.integers(1, 4)))] for _ in range(self.L - 1)] + [[0]]
+            fillz = ('random', 0.7, 1, -2.0)[int(rng.integers(4))]
+            xz = self.call('MPS', (), ptn.MPS, qz, qDz, fill=fillz, rng=rng) if fillz == 'random' else self.call('MPS', (), ptn.MPS, qz, qDz, fill=fillz)
+            badz = oracle.wf_mps(xz)
+            if badz:
+                self.fail('MPS', 'wf', f'MPS(qd={qz}, qD={qDz}, fill={fillz!r}): ' + '; '.join(badz[:3]), ())
         Dmax = int(rng.integers(1, 7))
         Ds = H.bond_dims(rng, self.L, Dmax, ('random', 'random', 'max', 'one')[int(rng.integers(4))])
         qD = H.sector_charges(rng, self.qd, Ds, q0, q1, False, ('random', 'sorted', 'reverse')[int(rng.integers(3))])
@@ -360,6 +369,21 @@ class _History:
         a = self.pick('mps')
         if a is None:
             return False
+        if self.rng.random() < 0.15 and self.L >= 2:
+            # operands from different sectors (same trailing, different leading bond label): the sum does not exist; the call has to
+            # refuse it, or whatever it returns has to be a well-formed object
+            qDp = [np.array(q) for q in a.x.qD]
+            qDp = [qDp[0] + 1] + [np.concatenate([q, q + 1]) for q in qDp[1:-1]] + [qDp[-1]]
+            try:
+                pz = ptn.MPS(np.array(a.x.qd), qDp, fill='random', rng=self.rng)
+                self.trace.append('add_mps[different sectors]')
+                xs = a.x + pz if self.rng.random() < 0.5 else a.x - pz
+            except Exception:      # noqa: BLE001 - refusing is the expected outcome
+                return True
+            bads = oracle.wf_mps(xs)
+            if bads:
+                self.fail('add_mps', 'wf', 'operands with different leading bond labels were accepted and the result is not well formed: ' + '; '.join(bads[:3]), (a,))
+            return True
         b = self.pick('mps', lambda p: p is not a and p.tag == a.tag and p.bq() == a.bq() and p.maxD() + a.maxD() <= self.capS)
         if b is None:
             return False
